@@ -704,7 +704,7 @@ def thread_check(prop, tier, seed, scenarios, rule, sample):
                     else:
                         jobs.append((name, ths, sc, T.YIELDS_MODEL, True, np_))
             for (name, ths, sc, yl) in T.CORPUS.get(prop, []):
-                jobs.insert(0, (name, ths, sc, yl, False, 64))
+                jobs.insert(0, (name, ths, sc, yl or T.YIELDS_MODEL, yl is None, 40 if "W" in ths else 64))
 
             def one(j):
                 name, ths, sc, yl, conf, np_ = j
@@ -766,6 +766,7 @@ def check_c04(tier, seed):
     scen = [("1 reader vs 2 writers (coarse, exhaustive)", ["r", "w", "w"], 4, 2, 100000, 64, "coarse"),
             ("2 readers vs 2 writers (coarse)", ["r", "r", "w", "w"], 4, 2, 150 if q else 100000, 64, "coarse"),
             ("1 reader vs 3 writers (coarse)", ["r", "w", "w", "w"], 4, 2, 150 if q else 100000, 64, "coarse"),
+            ("2 readers vs 2 writers (coarse, 4 preemptions)", ["r", "r", "w", "w"], 4, 4, 150 if q else 6000, 64, "coarse"),
             ("1 reader vs 2 writers (fine)", ["r", "w", "w"], 9, 2, 100 if q else 3000, 64, "fine"),
             ("reader vs growing writer (fine)", ["r", "W", "w"], 10, 2, 40 if q else 1500, 40, "fine")]
     return thread_check("C04", tier, seed, scen,
@@ -783,6 +784,7 @@ def check_c04(tier, seed):
 def check_c09(tier, seed):
     q = tier == "quick"
     scen = [("3 writers (coarse, exhaustive)", ["w", "w", "w"], 3, 2, 100000, 64, "coarse"),
+            ("growing writer + reader (fine, all 1-preemption schedules + resumption)", ["W", "r"], 12, 2, 120 if q else 100000, 40, "fine"),
             ("3 writers (fine)", ["w", "w", "w"], 10, 2, 80 if q else 2500, 64, "fine"),
             ("2 writers + reader (fine)", ["w", "w", "r"], 10, 2, 80 if q else 2500, 64, "fine"),
             ("growing writer + writer + 2 readers (fine)", ["W", "w", "r", "r"], 11, 2, 80 if q else 2500, 40, "fine")]
@@ -821,7 +823,9 @@ def c16_extra(rep, rd, b):
     failed = 0
     d = rd.sub()
     # growth: minimum-size file at 64 KiB pages, 30 MB of data => at least three 8 MiB extensions
-    runs = [(65536, 4, 60000, 500 if rep.tier == "quick" else 1500, 20, True), (1024, 4, 3000, 6000 if rep.tier == "quick" else 12000, 200, False)]
+    runs = [(65536, 4, 60000, 500 if rep.tier == "quick" else 1500, 20, True), (1024, 4, 3000, 6000 if rep.tier == "quick" else 12000, 200, False),
+            # one commit that needs more than two extension steps at once
+            (4096, 32, 50000, 500, 500, True), (4096, 4, 50000, 440, 220, False)]
     for (ps, np_, vs, count, per, strict) in runs:
         dbp = os.path.join(d, "grow.db")
         if os.path.exists(dbp):
@@ -832,7 +836,7 @@ def c16_extra(rep, rd, b):
         m = re.search(r"grow:ok n=(\d+) contents_ok=(\w+) lens=\[([0-9, ]*)\]", out)
         lens = [int(x) for x in m.group(3).split(",")] if m and m.group(3).strip() else []
         steps = [b_ - a for a, b_ in zip(lens, lens[1:])]
-        ok = bool(m) and int(m.group(1)) == count and m.group(2) == "true" and len(lens) >= (4 if ps == 65536 else 3) \
+        ok = bool(m) and int(m.group(1)) == count and m.group(2) == "true" and len(lens) >= (4 if ps == 65536 else (1 if per >= 220 else 3)) \
             and all(s_ > 0 and s_ % (8 << 20) == 0 for s_ in steps)
         if os.path.exists(dbp):
             # final file decodes and passes inv_check
